@@ -58,7 +58,7 @@ func runClient(ctx context.Context, start processStarter) (clientRunner, error) 
 		pendingOps: map[string]func(string, *conformancev1.ClientCompatResponse, error){},
 	}
 	proc.whenDone(func(_ error) {
-		result.terminated.Store(false)
+		result.terminated.Store(true)
 	})
 	go result.consumeOutput()
 	return result, nil
